@@ -294,6 +294,17 @@ fn mode_c19() {
         let mp = MessagePayload { timestamp: RtmpTimestamp::new(1), type_id: 9, message_stream_id: 1, data: Bytes::from(payload(300, 1)) };
         match s.serialize(&mp, false, false) { Ok(p) => { let maxlen = 300 + 18 * ((300 + n as usize - 1) / n as usize); if p.bytes.len() > maxlen { witness(format!("[c19] packet of {} bytes for a 300 byte payload at chunk size {}", p.bytes.len(), n)); } }, Err(e) => witness(format!("[c19] serialize refused at chunk size {}: {}", n, e)) }
     }
+    // the payload limit holds under EVERY accepted chunk size, also sizes above the limit itself
+    for &cs in &[16777215u32, 16777216, 0x7FFFFFFF] {
+        let mut s = ChunkSerializer::new();
+        if s.set_max_chunk_size(cs, RtmpTimestamp::new(0)).is_err() { witness(format!("[c19] chunk size {} refused", cs)); }
+        let big = MessagePayload { timestamp: RtmpTimestamp::new(1), type_id: 9, message_stream_id: 1, data: Bytes::from(vec![0u8; 16777216]) };
+        match catch_unwind(AssertUnwindSafe(|| s.serialize(&big, false, false))) {
+            Err(_) => witness(format!("[c19] serialize() PANICKED instead of refusing a 16,777,216 byte payload at chunk size {}", cs)),
+            Ok(Ok(_)) => witness(format!("[c19] 16,777,216 byte payload accepted at chunk size {}", cs)),
+            Ok(Err(_)) => {}
+        }
+    }
     let mut s = ChunkSerializer::new();
     let big = MessagePayload { timestamp: RtmpTimestamp::new(1), type_id: 9, message_stream_id: 1, data: Bytes::from(vec![0u8; 16777216]) };
     if s.serialize(&big, false, false).is_ok() { witness("[c19] 16,777,216 byte payload accepted".into()); }
